@@ -167,6 +167,11 @@ def gen_config(rng, d):
         if rng.random() < 0.6:
             # the same runs recorded in a second data file: loaded once per file, counted once
             raw["experiments"]["Y"]["data_file"] = os.path.join(d, "second.data")
+            if rng.random() < 0.6:
+                # a suite of its own next to the shared one: the shared runs get other record ids in the second file
+                raw["benchmark_suites"]["S0"] = {"gauge_adapter": "RebenchLog", "command": suite["command"],
+                                                 "benchmarks": ["Z0", "Z1"][:rng.randint(1, 2)]}
+                raw["experiments"]["Y"]["executions"] = [{"E": {"suites": ["S0", "S"]}}]
     warm = rng.choice([0, 0, 1, 2])
     raw["runs"] = dict(rand_details(rng), warmup=warm)
     if rng.random() < 0.3:
